@@ -458,7 +458,7 @@ func runC04Extra(e *core.Env) {
 		kind := Kind(i % 4)
 		for _, c := range cs.list {
 			sc := genCancelScript(r, kind, c.HTTP, "ignore", -1)
-			how := pick(r, "canceled", "deadline")
+			how := pick(r, "canceled", "deadline", "wrapped-canceled", "wrapped-deadline")
 			sc.Ret = Ret{How: how}
 			run, ok, _ := execScript(c, sc, nil)
 			if !ok {
@@ -467,7 +467,7 @@ func runC04Extra(e *core.Env) {
 			}
 			e.Eval(fmt.Sprintf("hctxerr|%s|%s|%s", c.Name, kind, how), true)
 			want := codes.Canceled
-			if how == "deadline" {
+			if strings.HasSuffix(how, "deadline") {
 				want = codes.DeadlineExceeded
 			}
 			out := run.ClientOutcome()
